@@ -21,7 +21,7 @@ def run(ctx):
         ctx.pipe([h, "ops", "2", "13", "24"], "par", label="operators-ntheta-div-3")
         ctx.pipe([h, "ops", "1", "9", "16"], "par", label="operators-ntheta-1-mod-3")
         ctx.pipe([h, "vec"], "par", label="vector-kernels")
-        ctx.pipe([h, "solve", "3"], "par", label="solves")
+        ctx.pipe([h, "solve", "6"], "par", label="solves")
         ctx.pipe([h, "resid", "12"], "par", label="residual-all-small-shapes")
         # transfers above the 10 000-node threshold (the optimised loops fork there), non-uniform angles, threads 1,2,3,4,7
         ho = ctx.build_harness("h_ops")
